@@ -141,7 +141,14 @@ Caught(ks, u, d, tn, ad, rs) ==
              \* only failures/errors (and the xfail's assertion) are REQUIRED to carry a traceback
              ad2 == IF NeedsTb(k) THEN ad \cup {[origin |-> "traceback", cid |-> cid, base |-> "traceback"]} ELSE ad
              ad3 == IF k \in {"xfail", "uxs"} THEN ad2 \cup {[origin |-> "reason", cid |-> cid, base |-> "reason"]} ELSE ad2
-         IN Caught(Tail(ks), u, d2, tn2, ad3, Append(rs, [kind |-> k, unit |-> u]))
+             \* the addOnException handler is called with this exception (before the outcome) and attaches a detail
+             hn  == Name("hx", Cardinality({x \in DOMAIN d2 : x.b = "hx"}))
+             hc  == "hx:" \o u \o ":" \o ToString(i)
+             d3  == IF onexc
+                    THEN [x \in DOMAIN d2 \cup {hn} |-> IF x = hn THEN [origin |-> "handler", cid |-> hc] ELSE d2[x]]
+                    ELSE d2
+             ad4 == IF onexc THEN ad3 \cup {[origin |-> "handler", cid |-> hc, base |-> "hx"]} ELSE ad3
+         IN Caught(Tail(ks), u, d3, tn2, ad4, Append(rs, [kind |-> k, unit |-> u]))
 
 -----------------------------------------------------------------------------
 Init ==
